@@ -10,7 +10,7 @@ from .util import (
     create_id, is_uuid, check_entity_name_and_type, check_entity_type,
     check_entity_name, check_entity_id, check_empty_str, check_name_or_id,
     check_entity_input, now_int, time_to_str, str_to_time, check_attr_type,
-    apply_polynomial, vlen_str_dtype
+    check_no_nul, apply_polynomial, vlen_str_dtype
 )
 from . import names
 from . import units
@@ -19,5 +19,5 @@ __all__ = ("names", "units", "create_id", "is_uuid",
            "check_entity_name_and_type", "check_entity_type",
            "check_entity_name", "check_entity_id", "check_empty_str",
            "check_name_or_id", "check_entity_input", "now_int", "time_to_str",
-           "str_to_time", "check_attr_type", "apply_polynomial",
+           "str_to_time", "check_attr_type", "check_no_nul", "apply_polynomial",
            "vlen_str_dtype")
